@@ -364,6 +364,11 @@ Eval(t, rho, st, cx) ==
     [] t.k = "ptr"   -> R(cx.els[Len(cx.els)], st)       \* the element of the innermost collection
     [] t.k = "un"    -> LET a == Eval(t.x, rho, st, cx)
                         IN IF IsErr(a.v) THEN a ELSE R(UnOp(t.op, a.v), a.st)
+    [] t.k = "bin" /\ "Dev_InRangeRewrite" \in cx.dv /\ t.op \in {"in", "not in"}
+         /\ t.r.k = "bin" /\ t.r.op = ".." /\ CFold(t.r.l).c = "int" /\ CFold(t.r.r).c = "int" ->
+         \* optimizer/in_range.go: x in a..b becomes x >= a and x <= b (x duplicated, no type guard)
+         LET rw == NBin("and", NBin(">=", t.l, NInt(CFold(t.r.l).n)), NBin("<=", t.l, NInt(CFold(t.r.r).n)))
+         IN Eval((IF t.op = "in" THEN rw ELSE NUn("not", rw)), rho, st, cx)
     [] t.k = "bin"   ->
          LET a == Eval(t.l, rho, st, cx)
          IN IF IsErr(a.v) THEN a
